@@ -60,6 +60,12 @@ func newVerifier(repo, specDir string) (*verifier, error) {
 			"golang.org/x/text/language.Tag": true,
 		},
 	}
+	// opaque struct sorts exist in every query (prelude modules may mention them)
+	for ts := range v.opaqueStructs {
+		i := strings.LastIndex(ts, "/")
+		v.opaque("O_" + sanitize(strings.Replace(ts[i+1:], ".", "_", 1)))
+	}
+	sort.Strings(v.opaqueDecls)
 	v.knownClause = map[string]bool{}
 	var kf KnownFile
 	if loadJSON(filepath.Join(filepath.Dir(specDir), "known-findings.json"), &kf) == nil {
